@@ -1,9 +1,10 @@
 /- Driver for the path model (C17): stream `fsutil`. -/
 import Glb.Driver.Common
 import Glb.Spec.PathNF
+import Glb.Model.PathCleanBytes
 
 namespace Glb.Driver.Fsutil
-open Glb Glb.PathClean Glb.PathNF
+open Glb Glb.PathClean Glb.PathNF Glb.PathCleanBytes
 
 /-- `nf` answer: `rooted=<bool> stack=<hex>,<hex>,…` (`-` for the empty stack) -/
 def showNF (n : NF) : String :=
@@ -14,6 +15,13 @@ def step (_ : Unit) : List String → Unit × String
   | ["clean", p] => match ofHex? p with
     | some p => ((), toHex (clean p))
     | none => ((), "bad-op")
+  -- the byte-level transcription of the stdlib loop (`Model/PathCleanBytes.lean`)
+  | ["cleanb", p] => match ofHex? p with
+    | some p => ((), toHex (cleanBytes p))
+    | none => ((), "bad-op")
+  | ["resolveb", base, url] => match ofHex? base, ofHex? url with
+    | some base, some url => ((), toHex (resolveUrlPathB base url))
+    | _, _ => ((), "bad-op")
   | ["join", a, b] => match ofHex? a, ofHex? b with
     | some a, some b => ((), toHex (join [a, b]))
     | _, _ => ((), "bad-op")
